@@ -6,6 +6,7 @@ func init() {
 	verifHarnesses["HarnessC01Eval"] = HarnessC01Eval
 	verifHarnesses["HarnessC01EvalDeep"] = HarnessC01EvalDeep
 	verifHarnesses["HarnessC01KeyInj"] = HarnessC01KeyInj
+	verifHarnesses["HarnessC01LongKeys"] = HarnessC01LongKeys
 }
 
 var verifC01Leaves = []verifLeaf{{"a", "a0"}, {"a", "a1"}, {"b", "b0"}, {"a", "zz"}, {"q", "x"}}
@@ -79,5 +80,37 @@ func HarnessC01KeyInj() {
 	} else {
 		verifAssert(verifOr(samePair, !sameKey), "C01: two different (column,value) pairs share one bitmap key when a column name contains a NUL byte")
 	}
+	verifReach("end")
+}
+
+// HarnessC01LongKeys: values sharing a long common prefix and differing in the last byte must
+// be keyed differently, for total key lengths around the sizes where fixed buffers or block
+// boundaries sit.
+func HarnessC01LongKeys() {
+	verifAbstractHash(true)
+	lens := []int{30, 31, 32, 33, 61, 62, 63, 64, 65, 66, 127, 128, 129, 255, 256, 257, 1023, 1024, 1025, 4096, 4097}
+	total := lens[verifChoice("keylen", len(lens))] // len(column) + 1 + len(value)
+	col := "column"
+	if verifBool("long-column") {
+		col = string(make([]byte, 0))
+		for i := 0; i < total-3; i++ {
+			col += "c"
+		}
+	}
+	plen := total - len(col) - 2
+	if plen < 0 {
+		return
+	}
+	prefix := ""
+	for i := 0; i < plen; i++ {
+		prefix += string([]byte{byte('a' + i%26)})
+	}
+	x := verifString("tail1", 1)
+	y := verifString("tail2", 1)
+	verifAssume(!verifStrEq(x, y))
+	k1 := getValueIndex(col, prefix+x)
+	k2 := getValueIndex(col, prefix+y)
+	verifAssert(k1 != k2, "C01: two different values of one column with a long common prefix share one bitmap key")
+	// and through the writers: both values are separately countable
 	verifReach("end")
 }
